@@ -3,11 +3,37 @@
    the whole command (go/packages, the libraries, the file system) is exercised by the check
    with hostile projects and is not modelled. *)
 From Gleece Require Import Base.Bytes Model.Outcome Model.Tags Proofs.TagsProofs
-     Model.Conflicts Proofs.ConflictsProofs Model.Graph Proofs.GraphProofs.
+     Model.Conflicts Proofs.ConflictsProofs Model.Graph Proofs.GraphProofs Proofs.OutcomeProofs.
 
 (* the oracle on an observed command run *)
 Theorem C14_oracle_spec : forall o, prop_C14 o = true <-> o = OOk \/ o = OReported.
 Proof. intros o; destruct o; simpl; split; intros H; try tauto; try discriminate; destruct H; discriminate. Qed.
+
+(* a generation run inside a longer-lived process (library entry points, several runs back to back):
+   its classification satisfies the oracle exactly when the call came back in time, without a panic,
+   and either reported an error or wrote its artifacts *)
+Theorem C14_job_outcome_ok : forall t p e a,
+  prop_C14 (job_outcome t p e a) = true <-> t = false /\ p = false /\ (e = true \/ a = true).
+Proof. exact job_outcome_ok. Qed.
+
+(* sequences of runs in one process: the oracle holds iff EVERY run ended with success or a reported
+   error; it splits over concatenation (what came before never licenses a later crash) and a refused
+   sequence has a first offending run after a fine prefix *)
+Theorem C14_seq_spec : forall os,
+  prop_C14_seq os = true <-> (forall o, List.In o os -> o = OOk \/ o = OReported).
+Proof. exact prop_C14_seq_spec. Qed.
+Theorem C14_seq_app : forall xs ys, prop_C14_seq (xs ++ ys) = prop_C14_seq xs && prop_C14_seq ys.
+Proof. exact prop_C14_seq_app. Qed.
+Theorem C14_seq_first_failure : forall os,
+  prop_C14_seq os = false ->
+  exists pre o post, os = pre ++ o :: post /\ prop_C14_seq pre = true /\ prop_C14 o = false.
+Proof. exact prop_C14_seq_first_failure. Qed.
+Example C14_seq_rejected_then_crash :
+  prop_C14_seq [job_outcome false false true false; job_outcome false true false false] = false.
+Proof. exact seq_rejected_then_crash. Qed.
+Example C14_seq_rejected_then_ok :
+  prop_C14_seq [job_outcome false false true false; job_outcome false false false true] = true.
+Proof. exact seq_rejected_then_ok. Qed.
 
 (* validator tags: for EVERY tag string, field kind, parse oracle and initial schema, neither
    validation converter dereferences nil (each returns a schema) *)
@@ -34,6 +60,12 @@ Theorem C14_conflicts_total : forall es, prop_C15 es (map fst (find_conflicts_ob
 Proof. exact find_conflicts_prop. Qed.
 
 Print Assumptions C14_oracle_spec.
+Print Assumptions C14_job_outcome_ok.
+Print Assumptions C14_seq_spec.
+Print Assumptions C14_seq_app.
+Print Assumptions C14_seq_first_failure.
+Print Assumptions C14_seq_rejected_then_crash.
+Print Assumptions C14_seq_rejected_then_ok.
 Print Assumptions C14_tags_no_panic_30.
 Print Assumptions C14_tags_no_panic_31.
 Print Assumptions C14_tags_total_30.
